@@ -493,6 +493,20 @@ func (b *builder) importItem(k kind, prefix []string) {
 		text += " " + b.vary("as") + " " + alias
 		b.feats["import:alias"]++
 	}
+	if b.allowDup && b.chance(1, 2, "dupalias") {
+		// repeat an alias of this kind in another letter case (see DrawSource)
+		var have []string
+		for a := range map[kind]map[string]string{kClass: b.sc.class, kFunction: b.sc.function, kConst: b.sc.constant}[k] {
+			have = append(have, a)
+		}
+		sortStrings(have)
+		if len(have) > 0 {
+			alias = b.vary(have[b.intn(len(have), "dupof")])
+			b.w(strings.Join(segs, "\\") + " " + b.vary("as") + " " + alias)
+			b.feats["import:duplicate-alias"]++
+			return
+		}
+	}
 	// PHP rejects a second import of the same alias in one namespace: skip it
 	switch k {
 	case kClass:
